@@ -92,14 +92,16 @@ def run_cases(ctx, cases, shard=150, nontrivial=None):
             continue
         ctx.violation(
             "the implementation disagrees with the proved model on %s: implementation %s, model %s "
-            "(0 v = Ok v as day number, 1 = Err, 2 = abort)" % (describe(e2, o2, a2), fmt_out(ia), fmt_out(ib)),
+            "(0 v = Ok v as day number, 1 = Err, 2 = abort)" % (describe(e2, o2, a2), fmt_out(ia, o2), fmt_out(ib, o2)),
             {"calendar_encoding": list(e2), "op": o2, "op_name": OPNAME.get(o2), "args": list(a2),
              "implementation": ia, "model": ib,
              "harness_cmd": "echo '%s' | harness/target/release/rlharness cal" % calgen.line(list(e2) + [o2] + list(a2))})
     return nbad
 
 
-def fmt_out(o):
+def fmt_out(o, op=None):
+    if op in (0, 1, 2, 3, 20) and len(o) == 1 and o[0] in (0, 1):
+        return "true" if o[0] == 1 else "false"
     if len(o) == 2 and o[0] == 0 and -200000 < o[1] < 200000:
         return "Ok(%s)" % calgen.fmt_date(o[1])
     if o == [1]:
